@@ -49,6 +49,10 @@ def run(ctx):
         lib_reader.check(ctx, "read")
     except ImportError:
         pass
+    # the tally classifies by the decoded level: the message-info decoder must follow the DLT table (shared with C14)
+    from rules import lib_codes
+    lib_codes.check_msin(ctx)
+    R.floor("TAB-MSIN.row", 20)
     try:
         from rules import lib_stats
         lib_stats.check(ctx)
